@@ -9,7 +9,8 @@ ROOT = os.path.dirname(os.path.dirname(os.path.abspath(__file__)))
 # property -> (technique, level text, level note, design ref)
 CHECKS = {
     "C01": ("TLA+ API state machine (FAObj/FAGen) enumerated by TLC, every reachable automaton replayed through "
-            "the public API, every call judged by the TLA+ trace spec TraceFA with the exact FASem oracle",
+            "the public API, every call judged by the TLA+ trace spec TraceFA with the exact FASem oracle; "
+            "algorithm-level TLA+ model of the subset construction (SubsetConstruction) model-checked over every small epsilon-NFA and iteration order",
             "Exhaustive within small constants: every automaton reachable through add/remove calls (<=2|3 states, "
             "<=3|4 transitions, all start/final sets) in the three classes, under label permutations, four name "
             "pools and several hash seeds, plus a seeded random family; each accepts/conversion call is settled by "
@@ -18,7 +19,8 @@ CHECKS = {
             "written in the evidence file; not a proof for all automata.", "DESIGN.md section 3 C01"),
     "C04": ("TLA+ API state machine (FAGen) enumerated by TLC, replayed through the public API under label "
             "permutations and hash seeds; is_empty/is_deterministic/is_acyclic/get_accepted_words judged by TraceFA "
-            "against FASem (reachability, three-clause determinism, cycle search, bounded language)",
+            "against FASem (reachability, three-clause determinism, cycle search, bounded language); algorithm-level TLA+ "
+            "models of the co-reachability worklist (LeadsToFinalFixed) and of is_acyclic (AcyclicPaths) model-checked over every small graph and order",
             "Exhaustive within small constants (all epsilon-NFAs with <=2 states/<=3 transitions over {a,b}; sampled or "
             "complete 3-state families), every enumeration bound n in 0..4 and n=None on finite languages; each answer "
             "is compared by TLC with the exact set computed from the recorded structure.",
@@ -35,7 +37,8 @@ CHECKS = {
     "C03": ("TLA+ two-object API state machine (FAGen2) enumerated by TLC, replayed through the public API; every "
             "boolean/rational operation and operator form judged by TraceFA with exact product-reachability "
             "predicates (IsIntersection, IsDifference, IsUnion, IsComplement relative to the own alphabet) and "
-            "reference constructions (RevA, ConcatA, StarA) compared by Equiv",
+            "reference constructions (RevA, ConcatA, StarA) compared by Equiv; algorithm-level TLA+ model of get_intersection "
+            "(ProductIntersection) model-checked over every pair of small epsilon-NFAs and iteration order",
             "Exhaustive within small constants over ordered pairs of epsilon-NFAs/NFAs/DFAs (nondeterministic operands, "
             "epsilon moves into final states, several start states, overlapping and disjoint alphabets, state names "
             "colliding across operands, the same object as both operands); each result is decided exactly by TLC.",
